@@ -6,6 +6,7 @@ import json
 import os
 import random
 import re
+import shutil
 import subprocess
 from concurrent.futures import ThreadPoolExecutor
 
@@ -45,8 +46,21 @@ SETTINGS = {
     'busy': (None, 'PIKA_MAX_BUSY_LOOP_COUNT', 'pika.max_busy_loop_count', '2000'),
     'shut': (None, 'PIKA_SHUTDOWN_CHECK_COUNT', 'pika.shutdown_check_count', '10'),
     'qmax': (None, 'PIKA_THREAD_QUEUE_MAX_THREAD_COUNT', 'pika.thread_queue.max_thread_count', '1000'),
+    # boolean: the option is a flag (present = 1), the variable / ini entry carry 0 or 1
+    'ignore': ('--pika:ignore-process-mask', 'PIKA_IGNORE_PROCESS_MASK', 'pika.ignore_process_mask', '0'),
 }
-HANDLED = {'threads', 'cores', 'scheduler', 'bind', 'numa', 'mask'}   # go through handle_* (manage_config)
+HANDLED = {'threads', 'cores', 'scheduler', 'bind', 'numa', 'mask', 'ignore'}   # go through handle_* (manage_config)
+FLAGS = {'ignore'}
+ALL_SOURCES = ['env', 'pcoini', 'cmdini', 'pcoopt', 'cmdopt']
+# description of the scheduler object the default pool really runs (monitor's own table, per scheduling policy)
+SCHED_DESC = {0: 'core-local_queue_scheduler', 1: 'core-local_priority_queue_scheduler', 2: 'core-local_priority_queue_scheduler',
+              3: 'core-static_queue_scheduler', 4: 'core-static_priority_queue_scheduler',
+              5: 'core-abp_fifo_priority_queue_scheduler', 6: 'core-abp_fifo_priority_queue_scheduler',
+              7: 'core-shared_priority_queue_scheduler'}
+BIND_KEYWORDS = ['none', 'compact', 'scatter', 'balanced', 'numa-balanced']
+SYNTHETIC = 'package:2 core:2 pu:2'       # 2 PUs per core: the keywords `cores` (4) and `all` (8) differ
+# signatures that belong to recorded defects: never decorated with the input class
+KNOWN_SIGS = {'C16:prepend_ini_first_wins', 'C16:prepend_option_over_cmdline_ini', 'C16:precedence:cores:env_lost_to_other'}
 
 
 DOLLAR_WORDS = ['${C16_VAR}', 'a${C16_UNSET:dflt}b', 'p${C16_VAR}q', '$[pika.os_threads]', 'n=$[pika.scheduler]',
@@ -114,7 +128,7 @@ def gen_value(rng, name, mach, invalid=False, symbolic=True):
 
 
 def make_case(rng, mach, idx):
-    names = list(SETTINGS)
+    names = [x for x in SETTINGS if x not in FLAGS]
     if mach['pus'] != mach['cores'] or len(mach['pubits']) < 2:
         names.remove('mask')
     k = rng.choice([1, 1, 2, 2, 3])
@@ -128,7 +142,7 @@ def make_case(rng, mach, idx):
     invalid = None
     for n in chosen:
         opt, envn, key, _ = SETTINGS[n]
-        avail = ['env', 'pcoini', 'cmdini'] + (['pcoopt', 'cmdopt'] if opt else [])
+        avail = ['env', 'pcoini', 'cmdini'] + (['pcoopt', 'cmdopt'] if opt and n not in FLAGS else [])
         mode = rng.random()
         if mode < 0.25:
             present = [rng.choice(avail)]
@@ -144,7 +158,7 @@ def make_case(rng, mach, idx):
         used = set()
         for s in present:
             for _ in range(20):
-                v = gen_value(rng, n, mach, symbolic=(len(present) == 1))
+                v = gen_value(rng, n, mach, symbolic=(len(present) == 1 or n == 'threads'))
                 if v not in used:
                     break
             used.add(v)
@@ -235,8 +249,183 @@ def make_case(rng, mach, idx):
     rng.shuffle(pco)
     if pco:
         env['PIKA_COMMANDLINE_OPTIONS'] = ' '.join(pco)
+    env.update(mach['env'])
     return {'id': idx, 'env': env, 'args': args, 'src': src, 'invalid': invalid, 'unknown': unknown,
-            'apps': [a for a in args if False], 'items': items, 'tail': tail, 'nasty': nasty_used}
+            'apps': [a for a in args if False], 'items': items, 'tail': tail, 'nasty': nasty_used,
+            'mach': mach['name'], 'taskset': mach['taskset'], 'fam': 'random'}
+
+
+# ------------------------------------------------------------------ values with a separate code path: keywords, abbreviations, flags
+def popcount(v):
+    return bin(v).count('1')
+
+
+def counts_for(mach, ignore, mask):
+    """(PUs, cores) the keywords `all` / `cores` stand for: whole machine when the process mask is ignored, else the
+    explicit mask, else the inherited one; a core counts when one of its PUs is in the mask"""
+    if ignore:
+        return mach['pus'], mach['cores']
+    if mask:
+        v = int(mask, 16)
+        return popcount(v), sum(1 for cm in mach['coremasks'] if cm & v)
+    return mach['maskcount'], mach['maskcores']
+
+
+def emit(n, vals, env, pco, cmd):
+    opt, envn, key, _ = SETTINGS[n]
+    for s_, v in vals.items():
+        if s_ == 'env':
+            env[envn] = v
+        elif s_ == 'pcoini':
+            pco.append('--pika:ini=%s=%s' % (key, v))
+        elif s_ == 'cmdini':
+            cmd.append('--pika:ini=%s=%s' % (key, v))
+        elif s_ == 'pcoopt':
+            pco.append(opt if n in FLAGS else '%s=%s' % (opt, v))
+        elif s_ == 'cmdopt':
+            cmd.append(opt if n in FLAGS else '%s=%s' % (opt, v))
+
+
+def finish_kw(rng, idx, mach, fam, src, env, pco, cmd, extra=None):
+    apps = [rng.choice(['x', 'input.dat', 'n:3'])] if rng.random() < 0.3 else []
+    items = cmd + apps
+    rng.shuffle(items)
+    rng.shuffle(pco)
+    env = dict(env)
+    if pco:
+        env['PIKA_COMMANDLINE_OPTIONS'] = ' '.join(pco)
+    env.update(mach['env'])
+    c = {'id': idx, 'env': env, 'args': list(items), 'src': src, 'invalid': None, 'unknown': None, 'apps': [],
+         'items': list(items), 'tail': [], 'nasty': False, 'mach': mach['name'], 'taskset': mach['taskset'], 'fam': fam}
+    if extra:
+        c.update(extra)
+    return c
+
+
+def third_sources(vals):
+    """sources a third value may come from without putting the option both into PIKA_COMMANDLINE_OPTIONS and on the command line"""
+    return [s_ for s_ in ALL_SOURCES if s_ not in vals and not ((({s_} | set(vals)) >= {'pcoopt', 'cmdopt'}) and not (set(vals) >= {'pcoopt', 'cmdopt'}))]
+
+
+def really_decides(ka, kb):
+    """source ka outranks kb AND the pair is not one of the recorded inversions / the duplicate rejection: the value in ka is
+    then the one the live runtime must show"""
+    return layer_rank(ka) > layer_rank(kb) and not (ka == 'cmdini' and kb in ('pcoini', 'pcoopt')) and {ka, kb} != {'pcoopt', 'cmdopt'}
+
+
+def ordered_pairs(exclude=()):
+    return [(a, b) for a in ALL_SOURCES for b in ALL_SOURCES if a != b and (a, b) not in exclude]
+
+
+def kw_cases(rng, machs, first_id, quick):
+    """scenarios for values that take a code path of their own (keywords of the worker count and of pika.cores, binding
+    keywords, scheduler names given as abbreviations, the boolean ignore-process-mask flag): the special value sits in
+    source A, an ordinary (or another special) value in source B, for EVERY ordered pair (A, B) of the five sources, so
+    that it is met both above and below the other value; optionally a third source"""
+    cases = []
+    mlist = [m for m in machs.values()]
+
+    def nid():
+        return first_id + len(cases)
+
+    # ---- worker count: cores / all
+    reps = 1 if quick else 6
+    for rep in range(reps):
+        for i, (ka, kb) in enumerate(ordered_pairs()):
+            for kw in ([rng.choice(['cores', 'all'])] if {ka, kb} == {'pcoopt', 'cmdopt'} else ['cores', 'all']):
+                mach = rng.choice([machs['syn']] * 3 + mlist) if 'syn' in machs else rng.choice(mlist)
+                env, pco, cmd, src = {}, [], [], {}
+                ignore, mask = False, ''
+                r = rng.random()
+                if r < 0.2 and mach['maskcount'] < mach['pus']:
+                    ignore = True
+                    cmd.append('--pika:ignore-process-mask')
+                elif r < 0.5 and len(mach['pubits']) >= 3:
+                    bits = rng.sample(mach['pubits'], rng.randint(2, min(5, len(mach['pubits']))))
+                    mask = hex(sum(1 << b for b in bits))
+                    src['mask'] = {rng.choice(['env', 'cmdopt', 'cmdini']): mask}
+                    emit('mask', src['mask'], env, pco, cmd)
+                npu, ncore = counts_for(mach, ignore, mask)
+                other = [x for x in range(1, min(npu, 6) + 1) if x not in (npu, ncore)] or [x for x in range(1, npu + 1) if x != (ncore if kw == 'cores' else npu)]
+                if not other:
+                    continue
+                vals = {ka: kw, kb: str(rng.choice(other))}
+                if rng.random() < 0.3 and third_sources(vals):
+                    vals[rng.choice(third_sources(vals))] = rng.choice([str(rng.choice(other)), 'all' if kw == 'cores' else 'cores'])
+                src['threads'] = vals
+                emit('threads', vals, env, pco, cmd)
+                cases.append(finish_kw(rng, nid(), mach, 'kw_threads', src, env, pco, cmd))
+    # ---- pika.cores: all (the environment variable is a recorded defect: only as the lower source)
+    pairs = [(a, b) for (a, b) in ordered_pairs() if a != 'env']
+    decp = [pq for pq in pairs if really_decides(*pq)]
+    for (ka, kb) in (rng.sample(decp, 4) + rng.sample([pq for pq in pairs if pq not in decp], 4) if quick else pairs):
+        mach = rng.choice(mlist)
+        env, pco, cmd = {}, [], ['--pika:threads=1']
+        _, ncore = counts_for(mach, False, '')
+        vals = {ka: 'all', kb: str(rng.choice([x for x in range(1, 5) if x != ncore]))}
+        emit('cores', vals, env, pco, cmd)
+        cases.append(finish_kw(rng, nid(), mach, 'kw_cores', {'cores': vals}, env, pco, cmd))
+    # ---- scheduler: an abbreviation (any prefix of a documented name) against a full name of another policy.  Boundary
+    # abbreviations of every name are all used: 1 and 2 characters, up to / just before every dash, all but the last character
+    bound = set()
+    for full, _ in SCHED_NAMES:
+        bound.update([full[:1], full[:2], full[:-1]])
+        for i, ch_ in enumerate(full):
+            if ch_ == '-':
+                bound.update([full[:i], full[:i + 1]])
+    bound = sorted(b_ for b_ in bound if b_ and b_ not in [nm for nm, _ in SCHED_NAMES])
+    rng.shuffle(bound)
+    pairs = ordered_pairs()
+    rng.shuffle(pairs)
+    dec = [pq for pq in pairs if really_decides(*pq)]
+    # every boundary abbreviation once as the DECIDING value; then random prefixes over all ordered pairs
+    plan = [(ab, dec[i % len(dec)], True) for i, ab in enumerate(bound)]
+    for rep in range(reps):
+        for pq in pairs:
+            full, _ = rng.choice(SCHED_NAMES)
+            plan.append((full[:rng.randint(1, len(full) - 1)], pq, False))
+    for ab, (ka, kb), strict in plan:
+        mach = rng.choice(mlist)
+        others = [nm for nm, q in SCHED_NAMES if q != sched_policy(ab)]
+        vals = {ka: ab, kb: rng.choice(others)}
+        if not strict and rng.random() < 0.25 and third_sources(vals):
+            o2 = rng.choice(others)
+            vals[rng.choice(third_sources(vals))] = o2[:rng.randint(1, len(o2))]
+        env, pco, cmd = {}, [], ['--pika:threads=%d' % rng.randint(1, 3)]
+        emit('scheduler', vals, env, pco, cmd)
+        cases.append(finish_kw(rng, nid(), mach, 'kw_scheduler', {'scheduler': vals}, env, pco, cmd))
+    # ---- binding keywords; the option is composing, so never in PIKA_COMMANDLINE_OPTIONS and on the command line at once
+    bm = machs.get('syn', machs['real'])
+    for rep in range(reps):
+        bp = ordered_pairs(exclude=[('pcoopt', 'cmdopt'), ('cmdopt', 'pcoopt')])
+        rng.shuffle(bp)
+        bp.sort(key=lambda pq: not really_decides(*pq))        # deciding pairs first: every keyword decides at least once
+        off = rng.randint(0, 4)
+        for i, (ka, kb) in enumerate(bp):
+            a = BIND_KEYWORDS[(i + off) % len(BIND_KEYWORDS)]
+            b = rng.choice([x for x in BIND_KEYWORDS if x != a])
+            k = rng.choice([6, 6, 5, 4, 3])
+            k = min(k, bm['maskcount'])
+            vals = {ka: a, kb: b}
+            env, pco, cmd = {}, [], ['--pika:threads=%d' % k]
+            emit('bind', vals, env, pco, cmd)
+            cases.append(finish_kw(rng, nid(), bm, 'kw_bind', {'bind': vals}, env, pco, cmd, {'bind_threads': k}))
+    # ---- boolean flag: --pika:ignore-process-mask / PIKA_IGNORE_PROCESS_MASK / pika.ignore_process_mask, observed through
+    # the meaning of `all` / `cores` on a machine whose process mask is smaller than the machine
+    small = [m for m in mlist if m['maskcount'] < m['pus']]
+    pairs = ordered_pairs(exclude=[('pcoopt', 'cmdopt'), ('cmdopt', 'pcoopt')])
+    for (ka, kb) in (rng.sample(pairs, 10) if quick else pairs):
+        mach = rng.choice(small or mlist)
+        fa, fb = ka in ('pcoopt', 'cmdopt'), kb in ('pcoopt', 'cmdopt')
+        va = '1' if fa else ('0' if fb else rng.choice(['0', '1']))
+        vb = '1' if fb else ('0' if va == '1' else '1')
+        vals = {ka: va, kb: vb}
+        env, pco, cmd = {}, [], []
+        emit('ignore', vals, env, pco, cmd)
+        tv = {rng.choice(['env', 'cmdopt', 'cmdini']): rng.choice(['all', 'cores'])}
+        emit('threads', tv, env, pco, cmd)
+        cases.append(finish_kw(rng, nid(), mach, 'kw_ignore', {'ignore': vals, 'threads': tv}, env, pco, cmd))
+    return cases
 
 
 def permuted(rng, case, idx):
@@ -256,9 +445,9 @@ def permuted(rng, case, idx):
 
 def in_line(case, mach):
     env = ','.join('%s:%s' % (k, hx(v)) for k, v in sorted(case['env'].items())) or '-'
-    return 'IN CFG %d keys=%s env=%s mach=%d,%d,%d,%d arg0=%s args=%s' % (
-        case['id'], ','.join(KEYS), env, mach['pus'], mach['cores'], mach['maskcount'], mach['maskcount'],
-        hx(mach['arg0']), ','.join(hx(a) for a in case['args']) or '-')
+    return 'IN CFG %d keys=%s env=%s mach=%d,%d,%d,%d coremasks=%s arg0=%s args=%s' % (
+        case['id'], ','.join(KEYS), env, mach['pus'], mach['cores'], mach['maskcount'], mach['maskcores'],
+        ';'.join('%x' % cm for cm in mach['coremasks']), hx(mach['arg0']), ','.join(hx(a) for a in case['args']) or '-')
 
 
 # ------------------------------------------------------------------ running the real thing
@@ -270,11 +459,37 @@ def run_real(binary, case):
     env.update(case['env'])
     env['C16_KEYS'] = ','.join(KEYS)
     try:
-        p = subprocess.run([binary] + case['args'], env=env, stdout=subprocess.PIPE, stderr=subprocess.PIPE,
-                           timeout=25)
+        pre = ['taskset', '-c', case['taskset']] if case.get('taskset') else []
+        p = subprocess.run(pre + [binary] + case['args'], env=env, stdout=subprocess.PIPE, stderr=subprocess.PIPE,
+                           timeout=40)
         return p.returncode, p.stdout.decode(errors='replace'), p.stderr.decode(errors='replace')
     except subprocess.TimeoutExpired as e:
         return 124, (e.stdout or b'').decode(errors='replace'), (e.stderr or b'').decode(errors='replace') + '\n[timeout]'
+
+
+def mask_bits(text):
+    """pika prints a mask as 0x followed by one digit per PU (most significant first)"""
+    d = text[2:] if text.startswith('0x') else text
+    return [i for i, ch_ in enumerate(reversed(d)) if ch_ == '1']
+
+
+def probe_machine(binary, name, menv, taskset):
+    """machine facts of one variant (inputs of the model and of the monitors), read from the harness"""
+    c = {'env': dict(menv), 'args': ['--pika:threads=1'], 'taskset': taskset}
+    rc, out, err = run_real(binary, c)
+    m = re.search(r'C16 MACHINE pus=(\d+) cores=(\d+) maskcount=(\d+) mask=(0x[0-9a-f]+)', out)
+    t = re.search(r'C16 TOPO coremasks=(\S+)', out)
+    if not m or not t or 'C16 STOP rc=0' not in out:
+        return None, (out + err)[-600:]
+    bits = mask_bits(m.group(4))
+    cms = [sum(1 << b for b in mask_bits(x)) for x in t.group(1).split(',')]
+    mv = sum(1 << b for b in bits)
+    mach = {'name': name, 'env': dict(menv), 'taskset': taskset, 'pus': int(m.group(1)), 'cores': int(m.group(2)),
+            'maskcount': int(m.group(3)), 'maskcores': sum(1 for cm in cms if cm & mv), 'coremasks': cms,
+            'pubits': [b for b in bits if b < int(m.group(1))], 'arg0': binary}
+    if len(bits) != mach['maskcount'] or len(cms) != mach['cores']:
+        return None, 'inconsistent machine line: %s' % out[-300:]
+    return mach, ''
 
 
 def classify(rc, out, err):
@@ -347,7 +562,19 @@ def to_int(s):
         return None
 
 
-def monitor(case, o, mach):
+def value_class(n, v):
+    if n in ('threads', 'cores') and v in ('cores', 'all'):
+        return 'keyword'
+    if n == 'scheduler' and v not in [nm for nm, _ in SCHED_NAMES]:
+        return 'abbrev'
+    if n == 'bind':
+        return 'keyword'
+    if n == 'ignore':
+        return 'flag'
+    return ''
+
+
+def monitor(case, o, mach, refs=None):
     """returns list of (signature, text)"""
     hits = []
     src = case['src']
@@ -383,25 +610,30 @@ def monitor(case, o, mach):
         if ':' in kv:
             k, v = kv.split(':', 1)
             cfg[k] = unhx(v)
-    ignore = cfg.get('pika.ignore_process_mask') == '1'
+    # what the keywords of the worker count stand for in THIS run: taken from the mask settings the runtime reports
+    # (those are judged on their own when they are among the generated sources)
+    npu, ncore = counts_for(mach, cfg.get('pika.ignore_process_mask') == '1', cfg.get('pika.process_mask') or '')
+
+    def tcount(v):
+        return ncore if v == 'cores' else npu if v == 'all' else (int(v) if v.isdigit() else None)
+
     for n, vals in src.items():
         opt, envn, key, dflt = SETTINGS[n]
         top = max(vals, key=layer_rank)
         exp = vals[top]
         got = cfg.get(key)
+        matches = lambda v: v == got           # noqa: E731  (does the runtime's observation equal what source value v means?)
         # what the runtime uses
         if n == 'threads':
-            want = None
-            if exp.isdigit():
-                want = int(exp)
             got_used = int(L['WORKERS']['workers'])
-            ok = (want is None) or got_used == want
-            if exp in ('cores', 'all'):
-                ok = got_used >= 1
-            shown = 'workers=%d' % got_used
+            matches = lambda v: tcount(v) == got_used          # noqa: E731
+            ok = tcount(exp) == got_used and L['WORKERS'].get('pool_threads') == str(got_used) and got == str(got_used)
+            shown = 'workers=%d entry=%s (cores=%d all=%d in the effective mask)' % (got_used, got, ncore, npu)
         elif n == 'scheduler':
-            ok = str(sched_policy(exp)) == L['SCHED']['policy'] and got == exp
-            shown = 'policy=%s entry=%s' % (L['SCHED']['policy'], got)
+            pol = sched_policy(exp)
+            matches = lambda v: str(sched_policy(v)) == L['SCHED']['policy']          # noqa: E731
+            ok = str(pol) == L['SCHED']['policy'] and got == exp and unhx(L['SCHED'].get('desc', '-')) == SCHED_DESC.get(pol)
+            shown = 'policy=%s scheduler=%s entry=%s' % (L['SCHED']['policy'], unhx(L['SCHED'].get('desc', '-')), got)
         elif n == 'small':
             ok = to_int(exp) == int(L['STACKS']['small'])
             shown = 'small=%s' % L['STACKS']['small']
@@ -409,18 +641,32 @@ def monitor(case, o, mach):
             ok = to_int(exp) == int(L['STACKS']['medium'])
             shown = 'medium=%s' % L['STACKS']['medium']
         elif n == 'cores':
-            ok = (got == exp) if exp != 'all' else (got or '').isdigit()
-            shown = 'entry=%s' % got
+            matches = lambda v: got == (str(ncore) if v == 'all' else v)          # noqa: E731
+            ok = matches(exp)
+            shown = 'entry=%s (all=%d)' % (got, ncore)
         elif n == 'bind':
             masks = L['AFF'].get('masks', '').split(',')
             ok = got == exp and ((exp == 'none') == all(int(m, 16) == 0 for m in masks))
             shown = 'entry=%s masks=%s' % (got, ','.join(masks)[:60])
+            if ok and refs is not None and case.get('fam') == 'kw_bind':
+                # the placement the live runtime computed must be the one it computes when the deciding value is the
+                # only definition (reference runs: environment variable alone, command-line option alone)
+                for how in ('env', 'cmdopt'):
+                    ref = refs.get((case['mach'], exp, case['bind_threads'], how))
+                    if ref is not None and ref != L['AFF'].get('masks'):
+                        ok = False
+                        shown = 'masks=%s but %s=%s alone gives %s' % (','.join(masks)[:80], 'PIKA_BIND' if how == 'env' else '--pika:bind', exp, ref[:80])
+                        matches = lambda v: refs.get((case['mach'], v, case['bind_threads'], 'env')) == L['AFF'].get('masks')          # noqa: E731
+        elif n == 'ignore':
+            matches = lambda v: got == ('0' if v == '0' else '1')          # noqa: E731
+            ok = matches(exp)
+            shown = 'entry=%s' % got
         else:
             ok = got == exp
             shown = 'entry=%s' % got
         if not ok:
             # which source won instead?
-            winner = [s for s, v in vals.items() if (v == got or (n == 'threads' and v == L['WORKERS']['workers']))]
+            winner = [s_ for s_, v in vals.items() if s_ != top and matches(v)]
             # several sources may carry the same value: blame the one the known mechanism would pick
             real_rank = {'cmdopt': 5, 'pcoopt': 5, 'pcoini': 3, 'cmdini': 2, 'env': 1}
             winner.sort(key=lambda s_: -real_rank[s_])
@@ -430,6 +676,11 @@ def monitor(case, o, mach):
                 sig = 'C16:prepend_ini_first_wins'
             elif top == 'cmdini' and w == 'pcoopt':
                 sig = 'C16:prepend_option_over_cmdline_ini'
+            if sig not in KNOWN_SIGS:
+                # input class: a value with a code path of its own (keyword, abbreviation, flag) is named in the signature
+                ct, cw = value_class(n, exp), (value_class(n, vals[w]) if w != 'other' else '')
+                if ct or cw:
+                    sig = 'C16:precedence:%s:%s%s_lost_to_%s%s' % (n, ct and ct + '_', top, cw and cw + '_', w)
             hits.append((sig, '%s: sources %s; the highest-precedence source present is %s=%r but the runtime uses %s'
                          % (n, vals, top, exp, shown)))
     # 4. application arguments
@@ -472,28 +723,44 @@ def run(ctx):
     r.rule = ('PROC: cases are generated from VERIF_SEED: 1-3 settings out of %d, each given through a random subset of '
               '{environment variable, PIKA_COMMANDLINE_OPTIONS option / --pika:ini, command-line --pika:ini / option} with '
               'pairwise distinct values, optionally one invalid value in the deciding source, unknown options, flags, '
-              'application words (some with blanks/quotes), shuffled order, plus a permuted twin of every 4th case; one real '
+              'application words (some with blanks/quotes), shuffled order, plus a permuted twin of every 4th case; in addition '
+              'the values with a code path of their own (worker count `cores`/`all`, pika.cores `all`, binding keywords, scheduler '
+              'names abbreviated to a prefix, the boolean ignore-process-mask flag) are placed in source A against an ordinary value '
+              'in source B for every ordered pair (A, B) of the five sources, on three machine variants (real topology, real '
+              'topology under taskset, HWLOC_SYNTHETIC with 2 PUs per core), with explicit process masks / ignore-process-mask; one real '
               'process per case; non-trivial = at least two sources present for a setting, or an invalid/unknown input; '
               'distinct = distinct (environment, argv)') % len(SETTINGS)
     ctx.build_pika()
     drv = build_driver(ctx)
     h = ctx.build_harness('c16_cfg', 'c16_cfg.cpp')
-    # machine facts from the real topology (inputs of the model)
-    rc, out = sh([h, '--pika:threads=1'], timeout=60, env={'C16_KEYS': 'pika.os_threads'})
-    m = re.search(r'C16 MACHINE pus=(\d+) cores=(\d+) maskcount=(\d+) mask=(0x[0-9a-f]+)', out)
-    if not m:
-        r.hits.append(Hit('tie', 'C16:harness', 'harness does not start the runtime: %s' % out[-600:], {'harness': 'c16_cfg'}))
+    # machine facts (inputs of the model): the real topology, the real topology with a smaller inherited process mask
+    # (taskset), and a synthetic topology with two PUs per core, where `cores`, `all` and numbers are told apart
+    machs = {}
+    mach, why = probe_machine(h, 'real', {}, None)
+    if not mach:
+        r.hits.append(Hit('tie', 'C16:harness', 'harness does not start the runtime: %s' % why, {'harness': 'c16_cfg'}))
         return r
-    mv = int(m.group(4), 16)
-    mach = {'pus': int(m.group(1)), 'cores': int(m.group(2)), 'maskcount': int(m.group(3)),
-            'pubits': [b for b in range(mv.bit_length()) if mv >> b & 1 and b < int(m.group(1))], 'arg0': h}
+    machs['real'] = mach
+    cpus = sorted(os.sched_getaffinity(0))
+    variants = [('syn', {'HWLOC_SYNTHETIC': SYNTHETIC}, None)]
+    if shutil.which('taskset') and len(cpus) >= 4:
+        variants.append(('sub', {}, ','.join(str(c_) for c_ in cpus[:max(2, len(cpus) // 4)])))
+    for name, menv, ts in variants:
+        mv_, why = probe_machine(h, name, menv, ts)
+        if mv_:
+            machs[name] = mv_
+        else:
+            r.notes.append('machine variant %s not usable here: %s' % (name, why[-200:]))
     rng = random.Random(ctx.seed * 7919 + 16)
     cases = []
     if ctx.replay:
         rp = json.load(open(ctx.replay))
         c = rp.get('replay', {}).get('case')
-        if c:
+        if c and c.get('mach', 'real') in machs:
             c['id'] = 0
+            c.setdefault('mach', 'real')
+            c.setdefault('taskset', machs[c['mach']]['taskset'])
+            c.setdefault('fam', 'replay')
             cases = [c]
     if not cases:
         n = 260 if ctx.tier == 'quick' else 4000
@@ -522,18 +789,50 @@ def run(ctx):
             {'env': {}, 'args': ['--pika:threads=0'], 'src': {'threads': {'cmdopt': '0'}}, 'invalid': ('threads', 'cmdopt', '0')},
             {'env': {}, 'args': ['--pika:threads=abc'], 'src': {'threads': {'cmdopt': 'abc'}}, 'invalid': ('threads', 'cmdopt', 'abc')},
         ]
+        # witnesses of the two recorded defects that had none: PIKA_CORES is dead (number and keyword), the glued last
+        # token of PIKA_COMMANDLINE_OPTIONS (C16_prepend_glued_refuted)
+        fixed += [
+            {'env': {'PIKA_CORES': '2'}, 'args': ['--pika:threads=1'], 'src': {'cores': {'env': '2'}}},
+            {'env': {'PIKA_CORES': 'all'}, 'args': ['--pika:threads=1'], 'src': {'cores': {'env': 'all'}}},
+            {'env': {'PIKA_COMMANDLINE_OPTIONS': '--pika:numa-sensitive=2'}, 'args': ['--pika:threads=2'], 'src': {}},
+        ]
+        if 'syn' in machs:
+            # the keyword Examples of Properties_C16.v (ex_kw_cmdline_over_env, ex_kw_ini_between, ex_kw_effective_mask) on the
+            # machine they are stated for (M8 = 2 PUs per core), replayed on the real code on every run
+            fixed += [
+                {'mach': 'syn', 'env': {'PIKA_THREADS': '3'}, 'args': ['--pika:threads=cores'], 'src': {'threads': {'env': '3', 'cmdopt': 'cores'}}},
+                {'mach': 'syn', 'env': {'PIKA_THREADS': '3'}, 'args': ['--pika:threads=all'], 'src': {'threads': {'env': '3', 'cmdopt': 'all'}}},
+                {'mach': 'syn', 'env': {'PIKA_THREADS': 'all'}, 'args': ['--pika:threads=3'], 'src': {'threads': {'env': 'all', 'cmdopt': '3'}}},
+                {'mach': 'syn', 'env': {'PIKA_THREADS': '3'}, 'args': ['--pika:ini=pika.os_threads=all'], 'src': {'threads': {'env': '3', 'cmdini': 'all'}}},
+                {'mach': 'syn', 'env': {'PIKA_THREADS': 'all'}, 'args': ['--pika:ini=pika.os_threads=cores'], 'src': {'threads': {'env': 'all', 'cmdini': 'cores'}}},
+                {'mach': 'syn', 'env': {'PIKA_COMMANDLINE_OPTIONS': '--pika:threads=cores'}, 'args': ['--pika:ini=pika.os_threads=2', 'x'],
+                 'src': {'threads': {'pcoopt': 'cores', 'cmdini': '2'}}},
+                {'mach': 'syn', 'env': {}, 'args': ['--pika:process-mask=0x7', '--pika:threads=cores'],
+                 'src': {'threads': {'cmdopt': 'cores'}, 'mask': {'cmdopt': '0x7'}}},
+                {'mach': 'syn', 'env': {}, 'args': ['--pika:process-mask=0x7', '--pika:threads=all'],
+                 'src': {'threads': {'cmdopt': 'all'}, 'mask': {'cmdopt': '0x7'}}},
+                {'mach': 'syn', 'env': {'PIKA_PROCESS_MASK': '0x3'}, 'args': [], 'src': {'mask': {'env': '0x3'}}},
+                {'mach': 'syn', 'env': {'PIKA_PROCESS_MASK': '0x3'}, 'args': ['--pika:ignore-process-mask', '--pika:threads=all', '--pika:bind=none'],
+                 'src': {'threads': {'cmdopt': 'all'}, 'mask': {'env': '0x3'}, 'ignore': {'cmdopt': '1'}, 'bind': {'cmdopt': 'none'}}},
+            ]
         for i, c in enumerate(fixed):
             c.setdefault('invalid', None)
             c.setdefault('unknown', None)
-            c.update({'id': i, 'items': list(c['args']), 'tail': [], 'nasty': False})
+            c.setdefault('mach', 'real')
+            c['env'] = dict(c['env'], **machs[c['mach']]['env'])
+            c.update({'id': i, 'items': list(c['args']), 'tail': [], 'nasty': False, 'taskset': machs[c['mach']]['taskset'], 'fam': 'fixed'})
             cases.append(c)
+        # values with a code path of their own, in every source, above and below ordinary values
+        kws = kw_cases(random.Random(ctx.seed * 104729 + 1601), machs, len(cases), ctx.tier == 'quick')
+        cases.extend(kws)
+        n += len(kws)
         while len(cases) < n:
             c = make_case(rng, mach, len(cases))
             cases.append(c)
             if len(cases) % 4 == 0 and len(cases) < n:
                 cases.append(permuted(rng, c, len(cases)))
     # model
-    ins = [in_line(c, mach) for c in cases]
+    ins = [in_line(c, machs[c['mach']]) for c in cases]
     rc2, mout = sh([drv], input='\n'.join(ins) + '\n', timeout=600)
     mouts = [x for x in mout.split('\n') if x.startswith('OUT ')]
     if rc2 != 0 or len(mouts) != len(cases):
@@ -542,6 +841,26 @@ def run(ctx):
     with ThreadPoolExecutor(max_workers=12) as ex:
         obs = list(ex.map(lambda c: classify(*run_real(h, c)), cases))
     outs = [out_line(c, o) for c, o in zip(cases, obs)]
+    # reference runs for the binding keywords: the value alone, through the environment and through the command line
+    refs = {}
+    want = sorted({(c['mach'], v, c['bind_threads'], how) for c in cases if c.get('fam') == 'kw_bind'
+                   for v in c['src']['bind'].values() for how in ('env', 'cmdopt')})
+
+    def ref_run(k):
+        mname, v, nthreads, how = k
+        rc_ = {'env': dict(machs[mname]['env']), 'args': ['--pika:threads=%d' % nthreads], 'taskset': machs[mname]['taskset']}
+        if how == 'env':
+            rc_['env']['PIKA_BIND'] = v
+        else:
+            rc_['args'].append('--pika:bind=' + v)
+        o_ = classify(*run_real(h, rc_))
+        return o_['lines'].get('AFF', {}).get('masks') if o_['kind'] == 'started' else None
+
+    with ThreadPoolExecutor(max_workers=12) as ex:
+        for k, v in zip(want, ex.map(ref_run, want)):
+            refs[k] = v
+    if want:
+        r.count('bind_reference_runs', len(want))
     mmap = {x.split(' ')[2]: x for x in mouts}
     # unsupported cases are outside the model: not compared, but still monitored
     cmp_impl, cmp_model = [], []
@@ -561,15 +880,24 @@ def run(ctx):
     for c, o in zip(cases, obs):
         srcs = sum(len(v) for v in c['src'].values())
         if any(len(v) >= 2 for v in c['src'].values()) or c['invalid'] or c['unknown']:
-            r.nontrivial(in_line(c, mach))
+            r.nontrivial(in_line(c, machs[c['mach']]))
         r.count('outcome=' + (o['kind'] if o['kind'] == 'started' else 'rejected:' + o['cls'].split(':')[0]))
         r.count('sources_present=%d' % min(srcs, 6))
         for n in c['src']:
             r.count('setting=' + n)
+        r.count('family=' + c.get('fam', '?'))
+        r.count('machine=' + c['mach'])
+        for n, vals in c['src'].items():
+            if len(vals) >= 2:
+                top_ = max(vals, key=layer_rank)
+                for s_, v in vals.items():
+                    cl = value_class(n, v)
+                    if cl:
+                        r.count('special=%s:%s:%s' % (n, cl, 'deciding' if s_ == top_ else 'below'))
         if o.get('cls') in ('hang',) or (o['kind'] == 'rejected' and o['cls'].startswith('other:')):
             r.hits.append(Hit('corr', 'C16:unexpected_termination', 'case %d: process ended with %s rc=%s'
                               % (c['id'], o.get('cls'), o['rc']), {'harness': 'c16_cfg', 'case': c}))
-        for sig, text in monitor(c, o, mach):
+        for sig, text in monitor(c, o, machs[c['mach']], refs):
             r.hits.append(Hit('monitor', sig, text + ' [env %s argv %s]' % (c['env'], c['args']),
                               {'harness': 'c16_cfg', 'case': c, 'observed': out_line(c, o)}))
     # permutation twins must give the same observation
@@ -589,5 +917,5 @@ def run(ctx):
                           {'harness': 'c16_cfg', 'case': byid[k[1]], 'impl': a, 'model': b}))
     for c, ol in list(zip(cases, outs))[3:6]:
         r.sample({'env': c['env'], 'argv': c['args'], 'observed': ol[:300]})
-    r.extra['machine'] = {k: mach[k] for k in ('pus', 'cores', 'maskcount')}
+    r.extra['machine'] = {nm: {k: mv_[k] for k in ('pus', 'cores', 'maskcount', 'maskcores', 'taskset')} for nm, mv_ in machs.items()}
     return r
